@@ -4,7 +4,7 @@
    functions are total). That the Go process does not panic, overflow its stack or hang is a fact about the
    runtime, established by executing every case in a child process under limits (DESIGN.md, C08). *)
 From Coq Require Import String Ascii List ZArith.
-From Bkl Require Import Model.Value Model.Str Model.Eval Model.Files Proofs.EvalProofs Proofs.InterpProofs Proofs.FilesProofs.
+From Bkl Require Import Model.Yaml Model.Value Model.Str Model.Eval Model.Files Proofs.EvalProofs Proofs.InterpProofs Proofs.FilesProofs.
 Import ListNotations.
 Local Open Scope string_scope.
 Local Open Scope list_scope.
@@ -72,6 +72,12 @@ Print Assumptions C08_parent_fuel_enough.
 Example C08_link_cycle :
   load_chain 4 ["yaml"] [("a.x.yaml", FReg (Ok [VMap [("ax", VInt 1)]])); ("a.yaml", FLink "a.x.yaml")] "a.x.yaml" None [] = Err ECircular.
 Proof. vm_compute. reflexivity. Qed.
+
+(* an alias to an anchor on an enclosing node (a: &a [*a]) is reported; see Model/Yaml.v for why this is the one
+   way a YAML node tree gets a cycle *)
+Theorem C08_yaml_self_alias : ytranslate YAliasUp = Err ECircular.
+Proof. reflexivity. Qed.
+Print Assumptions C08_yaml_self_alias.
 
 (* non-vacuity: the premises of C08_interp_cycle hold for a: $"{a}" *)
 Example C08_interp_premises :
